@@ -319,6 +319,45 @@ def run_shard(spec, acc):
                     if r is None or r.id != d.id:
                         acc.violation("selection-differs-frame-by-frame-or-under-id-filter", f"PGN {pgn}: {d.id} selected for the pre-assembled payload, "
                                       f"{'nothing' if r is None else r.id} returned via {n_}", {"pgn": pgn, "payload_hex": pb.hex(), "built_for": d.id, "variant": n_})
+        # two talkers of this PGN at the same time, frame by frame in turn, with the same sequence counter, on a decoder that has just
+        # ignored a continuation frame of each stream (it joined the bus in the middle of their previous messages): each payload is
+        # still handled by its own definition
+        if d.supported and d.type == "Fast" and d.fixed_layout:
+            sibs_ = [x for x in ds if x.supported and x.fixed_layout and x.type == "Fast"]
+            for rep in range(2 if quick else 20):
+                other = rng.choice(sibs_)
+                pa, pb_ = dbx.pack(d, gen.base_raws(d, rng, dbx)), dbx.pack(other, gen.base_raws(other, rng, dbx))
+                if dbx.select(pgn, pa) is not d or dbx.select(pgn, pb_) is not other:
+                    continue
+                na = d.length if d.length is not None else (d.total_bits() + 7) // 8
+                nb_o = other.length if other.length is not None else (other.total_bits() + 7) // 8
+                if not (8 < na <= 223 and 8 < nb_o <= 223):
+                    continue
+                ka, ga = observe(dec, pgn, pa, na)
+                kb, gb = observe(dec, pgn, pb_, nb_o)
+                if (ka, ga) != ("msg", d.id) or (kb, gb) != ("msg", other.id):
+                    continue            # judged above
+                q = rep % 8
+                fa, fb = wire.fast_frames(pa.to_bytes(na, "little"), q, 0xFF), wire.fast_frames(pb_.to_bytes(nb_o, "little"), q, 0xFF)
+                two = NMEA2000Decoder()
+                ia, ib = wire.can_id(3, pgn, 7, 255), wire.can_id(3, pgn, 8, 255)
+                got_ = {}
+                try:
+                    for ident_ in (ia, ib):
+                        two.decode_tcp(wire.ebyte_frame(ident_, bytes([((q + 5) % 8) << 5 | 2]) + bytes(7)))          # orphan continuation frames
+                    for k_ in range(max(len(fa), len(fb))):
+                        for who, ident_, fr_ in (("a", ia, fa), ("b", ib, fb)):
+                            if k_ < len(fr_):
+                                r_ = two.decode_tcp(wire.ebyte_frame(ident_, fr_[k_]))
+                                if r_ is not None:
+                                    got_[who] = (r_.id, r_.source)
+                except Exception as e_:  # noqa: BLE001
+                    got_["exc"] = f"{type(e_).__name__}: {e_}"
+                acc.count("interleaved_talkers_after_orphan_frames_compared")
+                if got_ != {"a": (d.id, 7), "b": (other.id, 8)}:
+                    acc.violation("selection-differs-frame-by-frame-or-under-id-filter", f"PGN {pgn}: two talkers (sources 7 and 8) send {d.id} and {other.id} frame by frame in turn "
+                                  f"after the decoder ignored a continuation frame of each: returned {got_}", {"pgn": pgn, "a": pa.to_bytes(na, "little").hex(), "b": pb_.to_bytes(nb_o, "little").hex(),
+                                                                                                         "built_for": d.id, "variant": "interleaved-after-orphans"})
         # constants the generated code of this PGN compares something with and the database does not explain (none in the
         # pinned tree): each field of the definition takes that value once; the selection must be what the database says
         from .. import harvest
